@@ -9,6 +9,8 @@ import (
 	"fmt"
 	"io"
 	"math/rand"
+	"mime"
+	"mime/multipart"
 	"net/http"
 	"net/http/httptest"
 	"net/url"
@@ -17,6 +19,7 @@ import (
 	"strconv"
 	"strings"
 	"sync"
+	"sync/atomic"
 	"time"
 	"unicode/utf8"
 
@@ -45,6 +48,7 @@ func init() {
 			"Round 4: empty values at every count (a scalar query/form value that is the empty text; multi arrays of one empty item [\"\"], of several empty items; some multi arrays declare a default); descriptions that spell a produces entry with upper-case letters and/or a parameter (Text/Plain, application/JSON; charset=utf-8, a blank before the ';'), the client listing the types as the description spells them (consumes entries spelled that way too: the client used to refuse them with 'none of producers registered', repaired by bbaab0a and pinned). Lists are compared item by item (a list of one empty item is not the empty list). " +
 			"Round 5: the query string carries keys that are no parameter of the operation, mostly spelled like a (non-file) form field of it, which the caller sets or leaves out as before: the api key of the description's security scheme carried in the query (client.APIKeyAuth(name, \"query\", ..) against security.APIKeyAuth on the server), a parameter the client auth writer adds (a token, a signature), a static query parameter of the path pattern or of the transport's base path; the form field must arrive as set in the form, or as nothing. The handler sets a further response header line by line (a date header with its date; Warning/Link/free-text headers of 1..3 lines, 1 value in 2 holding a comma) and the reader reads it, and the echo header, through GetHeaders as well as GetHeader: the lines must arrive as many, in order and whole. " +
 			"Round 10: segments made of one placeholder and literal text closing the segment ('/r0/{p0}.json', '{p0}:activate', '{p0}.tar.gz', ';v=1', '@latest', ...) in 1 path parameter in 4, called in 2 calls in 3 with values built around that literal (at the start, in the middle, at the end, twice, several times in a row, alone, cut short to a proper prefix, a proper suffix first, directly followed by more text) next to the ordinary hostile values: the handler must get the value as supplied. " +
+			"Round 11: in 1 upload in 3 the request writer sets the (first) file field more than once on the one request (SetFileParam replaces: the same list again, the list plus an attachment behind or in front of it, other files, one file kept and one dropped, three calls, a list shrinking to one of its files; a file listed again is the same source), and in 1 upload in 2 the sources are *os.File values open on temporary files or in-memory sources whose Read fails once they have been closed (next to the sources whose Close does nothing). What the caller supplies is the list of the last call: the handler must run and hold a file of that list whole, and the request body as the server read it (recorded on its way to the middleware, parsed by the harness with mime/multipart) must carry under the field's name exactly the files of that list, in order, each whole. " +
 			"Every call runs on a transport of its case; a dial/reset/deadline/closed-connection error of the loopback plumbing is counted (env:*), the call is repeated once on a fresh server and only what shows again is judged; running out of descriptors/ports is never judged. " +
 			"Oracle: equality of every received value with the supplied one (a declared query/header/form parameter the call left out must arrive as the zero value, or as the default its declaration has), of the operation that ran, and of status/headers/body seen by the response reader with what the handler wrote (body read to EOF without error; status and headers only for HEAD operations). non-trivial = a call with >= 1 value containing a byte that needs escaping in its location; distinct by (operation shape, value tuple)",
 		Assumptions: []string{
@@ -52,6 +56,7 @@ func init() {
 			"a template segment holds at most one placeholder, optionally followed by literal text; several placeholders in one segment ('{a}.{b}') are not generated (which text belongs to which placeholder is ambiguous for values holding the separator: C01's recorded class)",
 			"header values are restricted to what HTTP can carry (no CR/LF/NUL/other controls, no leading/trailing whitespace)",
 			"JSON body strings are valid UTF-8 (JSON cannot carry other bytes); form file names are sent by base name and hold no CR/LF/NUL/DEL (Go's MIME header reader refuses a part header with DEL: protocol, not this code)",
+			"a file parameter is ONE file (Swagger 2.0): when the caller sets several files under its name, which of them the handler holds is not judged (it must be one of them, whole); that all of them are sent is judged on the request body. A failure to write or open the harness's temporary files is an environment class (env:temporary-file*), never a verdict. Upload sources of an uncomparable dynamic type are not generated",
 			"the Content-Type of a 304 answer is not judged (net/http strips it); a 304 answer carries no body",
 			"octet-stream request bodies have >= 1 byte (an empty stream is indistinguishable from an absent body); a 204 answer carries no body (HTTP)",
 			"a query parameter the caller does not set has the value written into the path pattern, else the one written into the base path; when both carry it either value is accepted (the statement does not rank the two); a value the caller sets wins over both",
@@ -107,6 +112,83 @@ type Call struct {
 	AuthQuery     map[string]mon.Q `json:"authQuery,omitempty"`     // query parameters the client auth writer adds to the request (a signature, a token): none of them is a parameter of the operation
 	RespLinesName string           `json:"respLinesName,omitempty"` // a response header the handler sets line by line (Header().Add), one line per item of RespLines
 	RespLines     []mon.Q          `json:"respLines,omitempty"`
+	// round 11: a history of the file field on the one request object, and sources whose Close means something.
+	// FileSets: the request writer calls SetFileParam several times for the (first) file field, once per entry (SetFileParam
+	// replaces what the field holds: this is how a decorating writer adds an attachment, or sets the field a wrapped writer has
+	// set already). An entry lists the files of that call: 0 = the file File/FileLen/FileSkip, i > 0 = FileMore[i-1]. The LAST
+	// entry is what the caller supplies. Empty = the field is set once with File, as before.
+	FileSets   [][]int    `json:"fileSets,omitempty"`
+	FileMore   []MoreFile `json:"fileMore,omitempty"`
+	FileSource string     `json:"fileSource,omitempty"` // "" = in-memory source whose Close does nothing | "os" = *os.File open on a temporary file | "strict" = in-memory source whose Read fails once it has been closed
+}
+
+// MoreFile is a further file of the (first) file field.
+type MoreFile struct {
+	Name mon.Q `json:"name"`
+	Len  int   `json:"len"`
+}
+
+// moreContent is the content of the i-th further file: another byte sequence than the first file's.
+func moreContent(i, n int) []byte {
+	b := make([]byte, n)
+	for k := range b {
+		b[k] = byte(k*11 + k/253 + 37*(i+1))
+	}
+	return b
+}
+
+// suppliedFiles lists what the caller supplies for the (first) file field, in order, each as "<base name>:<hash of the content>":
+// the files of the last SetFileParam call.
+func suppliedFiles(call *Call) []string {
+	if call.File == "" {
+		return nil
+	}
+	main := fileContent(call.FileLen)
+	if call.FileSkip > 0 && call.FileSkip <= len(main) {
+		main = main[call.FileSkip:]
+	}
+	ids := []int{0}
+	if len(call.FileSets) > 0 {
+		ids = call.FileSets[len(call.FileSets)-1]
+	}
+	var out []string
+	for _, id := range ids {
+		switch {
+		case id == 0:
+			out = append(out, fmt.Sprintf("%s:%x", baseName(string(call.File)), mon.Hash64(string(main))))
+		case id-1 < len(call.FileMore):
+			f := call.FileMore[id-1]
+			out = append(out, fmt.Sprintf("%s:%x", baseName(string(f.Name)), mon.Hash64(string(moreContent(id-1, f.Len)))))
+		}
+	}
+	return out
+}
+
+// fileHistory names the shape of the file field's history ("" = set once).
+func fileHistory(call *Call) string {
+	if len(call.FileSets) < 2 {
+		return ""
+	}
+	last := call.FileSets[len(call.FileSets)-1]
+	kept, dropped := false, false
+	for _, set := range call.FileSets[:len(call.FileSets)-1] {
+		for _, id := range set {
+			in := false
+			for _, l := range last {
+				in = in || l == id
+			}
+			kept = kept || in
+			dropped = dropped || !in
+		}
+	}
+	switch {
+	case kept && dropped:
+		return "file-field-set-again-keeping-some-files"
+	case kept:
+		return "file-field-set-again-keeping-its-files"
+	default:
+		return "file-field-set-again-with-other-files"
+	}
 }
 
 // Case is a description plus calls.
@@ -140,6 +222,7 @@ type sut struct {
 	gate     chan struct{}
 	gateOnce *sync.Once
 	done     chan struct{}
+	wire     *wire // round 11: set for the duration of a call whose request body is recorded as the server reads it
 }
 
 func (s *sut) openGate() { s.gateOnce.Do(func() { close(s.gate) }) }
@@ -343,7 +426,18 @@ func build(c *Case) (*sut, error) {
 		return nil, err
 	}
 	// not httptest.NewServer: it panics when it cannot listen
-	s.srv = &httptest.Server{Listener: ln, Config: &http.Server{Handler: ctx.APIHandler(nil)}}
+	apiHandler := ctx.APIHandler(nil)
+	s.srv = &httptest.Server{Listener: ln, Config: &http.Server{Handler: http.HandlerFunc(func(rw http.ResponseWriter, r *http.Request) {
+		if w := s.wire; w != nil && r.Body != nil {
+			// what the middleware reads of the body is recorded on its way; nothing else about the request changes
+			w.mu.Lock()
+			w.ct = r.Header.Get("Content-Type")
+			w.buf.Reset()
+			w.mu.Unlock()
+			r.Body = teeBody{io.TeeReader(r.Body, w), r.Body}
+		}
+		apiHandler.ServeHTTP(rw, r)
+	})}}
 	s.srv.Start()
 	s.host = strings.TrimPrefix(s.srv.URL, "http://")
 	s.base = c.Desc.BasePath + staticQuery(c.BaseQuery)
@@ -409,6 +503,78 @@ func (u *upFile) Close() error               { return nil }
 type seekFile struct{ upFile }
 
 func (s *seekFile) Seek(off int64, whence int) (int64, error) { return s.r.Seek(off, whence) }
+
+// strictFile is an in-memory upload source that behaves like a real file in one respect: once closed, it cannot be read.
+type strictFile struct {
+	upFile
+	closed atomic.Bool
+}
+
+func (s *strictFile) Read(p []byte) (int, error) {
+	if s.closed.Load() {
+		return 0, fmt.Errorf("read %s: %w", s.name, os.ErrClosed)
+	}
+	return s.r.Read(p)
+}
+func (s *strictFile) Close() error { s.closed.Store(true); return nil }
+func (s *strictFile) Seek(off int64, whence int) (int64, error) {
+	if s.closed.Load() {
+		return 0, fmt.Errorf("seek %s: %w", s.name, os.ErrClosed)
+	}
+	return s.r.Seek(off, whence)
+}
+
+// wire is what the server read of a request body (recorded for calls with a file field history only).
+type wire struct {
+	mu  sync.Mutex
+	ct  string
+	buf bytes.Buffer
+}
+
+func (w *wire) Write(p []byte) (int, error) {
+	w.mu.Lock()
+	defer w.mu.Unlock()
+	return w.buf.Write(p)
+}
+
+type teeBody struct {
+	io.Reader
+	io.Closer
+}
+
+// fileParts lists the file parts of the recorded multipart body that are sent under the given field name, in order, each as
+// "<file name>:<hash of the content>" (parsed by the harness with mime/multipart: the library is not asked).
+func (w *wire) fileParts(field string) ([]string, error) {
+	w.mu.Lock()
+	body := append([]byte(nil), w.buf.Bytes()...)
+	ct := w.ct
+	w.mu.Unlock()
+	_, ps, err := mime.ParseMediaType(ct)
+	if err != nil {
+		return nil, err
+	}
+	if ps["boundary"] == "" {
+		return nil, errors.New("no boundary")
+	}
+	mr := multipart.NewReader(bytes.NewReader(body), ps["boundary"])
+	var out []string
+	for {
+		p, err := mr.NextRawPart()
+		if err == io.EOF {
+			return out, nil
+		}
+		if err != nil {
+			return out, err
+		}
+		b, err := io.ReadAll(p)
+		if err != nil {
+			return out, err
+		}
+		if p.FormName() == field {
+			out = append(out, fmt.Sprintf("%s:%x", p.FileName(), mon.Hash64(string(b))))
+		}
+	}
+}
 
 type seen struct {
 	code    int
@@ -543,11 +709,19 @@ type obs struct {
 	subErr error
 	got    received
 	sn     *seen
-	edited bool // the media type lists handed to the library came back changed
+	edited bool  // the media type lists handed to the library came back changed
+	plumb  error // the harness could not prepare the call (temporary files): nothing was submitted
+	wire   *wire // the request body as the server read it (calls with a file field history)
 }
 
 // env names the plumbing failure the execution ran into ("" = none).
 func (o *obs) env() string {
+	if o.plumb != nil {
+		if k := envKind(o.plumb); resourceKind(k) {
+			return k
+		}
+		return "temporary-file"
+	}
 	if o.pv != nil {
 		return ""
 	}
@@ -567,6 +741,83 @@ func (s *sut) exec(c *Case, call *Call, op *gen.Op) *obs {
 	s.gate, s.gateOnce, s.done = make(chan struct{}), &sync.Once{}, make(chan struct{})
 	sn := &seen{}
 	var dir *os.File
+	s.wire = nil
+	if len(call.FileSets) > 0 {
+		s.wire = &wire{}
+	}
+	// round 11: the sources of the (first) file field. Temporary files are written before anything is submitted; a failure to
+	// do so is the harness's own (obs.plumb).
+	var tmpDir string
+	var opened []*os.File
+	defer func() {
+		for _, f := range opened {
+			_ = f.Close() // whoever closed it before: closing again changes nothing
+		}
+		if tmpDir != "" {
+			_ = os.RemoveAll(tmpDir)
+		}
+	}()
+	fileBytes := func(id int) (string, []byte) {
+		if id == 0 {
+			return string(call.File), fileContent(call.FileLen)
+		}
+		return string(call.FileMore[id-1].Name), moreContent(id-1, call.FileMore[id-1].Len)
+	}
+	nFiles := 0
+	if call.File != "" {
+		nFiles = 1 + len(call.FileMore)
+	}
+	if call.FileSource == "os" && nFiles > 0 {
+		d, err := os.MkdirTemp("", "c04-upload-")
+		if err != nil {
+			return &obs{sn: sn, plumb: err}
+		}
+		tmpDir = d
+		for id := 0; id < nFiles; id++ {
+			name, content := fileBytes(id)
+			sub := fmt.Sprintf("%s/%d", tmpDir, id) // one directory per file: two files may have the same base name
+			if err := os.Mkdir(sub, 0o700); err != nil {
+				return &obs{sn: sn, plumb: err}
+			}
+			if err := os.WriteFile(sub+"/"+baseName(name), content, 0o600); err != nil {
+				return &obs{sn: sn, plumb: err}
+			}
+		}
+	}
+	var openErr error
+	// source makes the upload source of file id; one source per file and per run of the request writer
+	source := func(id int) rt.NamedReadCloser {
+		name, content := fileBytes(id)
+		skip := 0
+		if id == 0 {
+			skip = call.FileSkip
+		}
+		switch call.FileSource {
+		case "os":
+			f, err := os.Open(fmt.Sprintf("%s/%d/%s", tmpDir, id, baseName(name)))
+			if err != nil {
+				openErr = err
+				return &upFile{name: name, r: bytes.NewReader(content)}
+			}
+			opened = append(opened, f)
+			if skip > 0 {
+				_, _ = f.Seek(int64(skip), io.SeekStart)
+			}
+			return f
+		case "strict":
+			sf := &strictFile{upFile: upFile{name: name, r: bytes.NewReader(content)}}
+			if skip > 0 {
+				_, _ = sf.Seek(int64(skip), io.SeekStart)
+			}
+			return sf
+		}
+		if skip > 0 {
+			sf := &seekFile{upFile{name: name, r: bytes.NewReader(content)}}
+			_, _ = sf.Seek(int64(skip), io.SeekStart) // the caller already consumed a local header
+			return sf
+		}
+		return &upFile{name: name, r: bytes.NewReader(content)}
+	}
 	params := rt.ClientRequestWriterFunc(func(req rt.ClientRequest, _ strfmt.Registry) error {
 		for k, v := range call.Path {
 			_ = req.SetPathParam(k, string(v))
@@ -611,12 +862,23 @@ func (s *sut) exec(c *Case, call *Call, op *gen.Op) *obs {
 			}
 		}
 		if call.File != "" {
-			if call.FileSkip > 0 {
-				sf := &seekFile{upFile{name: string(call.File), r: bytes.NewReader(fileContent(call.FileLen))}}
-				_, _ = sf.Seek(int64(call.FileSkip), io.SeekStart) // the caller already consumed a local header
-				_ = req.SetFileParam(fileParamName(op), sf)
-			} else {
-				_ = req.SetFileParam(fileParamName(op), &upFile{name: string(call.File), r: bytes.NewReader(fileContent(call.FileLen))})
+			sets := call.FileSets
+			if len(sets) == 0 {
+				sets = [][]int{{0}}
+			}
+			pool := map[int]rt.NamedReadCloser{} // a file listed by several SetFileParam calls is the same source each time
+			for _, set := range sets {
+				var files []rt.NamedReadCloser
+				for _, id := range set {
+					if id < 0 || id >= nFiles {
+						continue
+					}
+					if pool[id] == nil {
+						pool[id] = source(id)
+					}
+					files = append(files, pool[id])
+				}
+				_ = req.SetFileParam(fileParamName(op), files...)
 			}
 		}
 		if call.Text != "" {
@@ -760,8 +1022,11 @@ func (s *sut) exec(c *Case, call *Call, op *gen.Op) *obs {
 	} else {
 		delete(rtm.Consumers, "*/*")
 	}
-	o := &obs{sn: sn}
+	o := &obs{sn: sn, wire: s.wire}
 	o.pv, o.stack = mon.Catch(func() { _, o.subErr = rtm.Submit(cop) })
+	if openErr != nil {
+		o.plumb = openErr
+	}
 	s.openGate() // never leave a handler waiting
 	if s.got.ran > 0 {
 		select { // the Responder finishes before its observations are read and before the next call is scripted
@@ -819,7 +1084,8 @@ func runCase(m *mon.M, c *Case) {
 			case "pattern-query", "base-path-query", "after-pattern-query", "parameter-name-needs-escaping", "slash-at-the-end-of-template-or-base-path", "literal-needs-escaping",
 				"array-of-one-empty-item", "array-of-empty-items", "empty-value",
 				"produces-spelled-with-upper-case", "produces-spelled-with-parameter", "produces-spelled-with-upper-case-and-parameter",
-				"consumes-spelled-with-upper-case", "consumes-spelled-with-parameter", "consumes-spelled-with-upper-case-and-parameter":
+				"consumes-spelled-with-upper-case", "consumes-spelled-with-parameter", "consumes-spelled-with-upper-case-and-parameter",
+				"file-field-set-again-keeping-its-files", "file-field-set-again-keeping-some-files", "file-field-set-again-with-other-files", "file-source-os", "file-source-strict":
 				m.Class("shape:" + f)
 			}
 		}
@@ -927,6 +1193,10 @@ func judge(m *mon.M, c *Case, call *Call, op *gen.Op, o *obs, feat string, one *
 		ob, _ := json.Marshal(op)
 		return fmt.Sprintf("op=%s call=%s baseQuery=%v -> submitErr=%v handlerRan=%d ranOp=%s bound=%.600v files=%v reader{ran=%d code=%d msg=%q echo=%q echoes=%q multi=%v lines=%q line1=%q ct=%q live=%v bodyLen=%d body=%.80q readErr=%v consumeErr=%v value=%.80q} answerLen=%d", ob, cb, c.BaseQuery, subErr, got.ran, got.op, got.bound, got.files, sn.ran, sn.code, sn.msg, sn.echo, sn.echos, sn.multi, sn.lines, sn.line1, sn.cts, sn.live, len(sn.body), sn.body, sn.readErr, sn.consErr, fmt.Sprint(sn.value), len(respBody(call, op)))
 	}
+	if o.plumb != nil {
+		m.Class("env:temporary-file-unavailable") // the harness could not prepare the upload sources, twice: nothing to judge
+		return
+	}
 	if o.pv != nil {
 		m.Violate("panic/"+feat, fmt.Sprintf("%v\n%s\n%s", o.pv, o.stack, descr()), one)
 		return
@@ -972,6 +1242,20 @@ func judge(m *mon.M, c *Case, call *Call, op *gen.Op, o *obs, feat string, one *
 	if bad := compareValues(c, call, op, got); bad != "" {
 		m.Violate("value-differs/"+bad+"/"+feat, bad+" ; "+descr(), one)
 		return
+	}
+	if o.wire != nil && call.File != "" {
+		// round 11: the field was set more than once: the request the client transport produced carries, under the field's name,
+		// the files of the LAST SetFileParam call, as many, in that order, each one whole (and none of an earlier call only)
+		parts, err := o.wire.fileParts(fileParamName(op))
+		switch want := suppliedFiles(call); {
+		case err != nil:
+			m.Class("probe:recorded-request-body-not-parsed") // the harness's own reading of the body: no verdict
+		case strings.Join(parts, "\x00") != strings.Join(want, "\x00"):
+			m.Violate("value-differs/files-of-the-field-in-the-request/"+feat, fmt.Sprintf("file parts sent under %q: %q, supplied: %q ; ", fileParamName(op), parts, want)+descr(), one)
+			return
+		default:
+			m.Class("agreed-files-of-a-field-set-again")
+		}
 	}
 	if got.gateTimeout || got.noFlusher {
 		m.Class("flush-not-exercised") // watchdog / no Flusher: the flushed shape did not take place; the answer is judged all the same
@@ -1390,12 +1674,13 @@ func compareValues(c *Case, call *Call, op *gen.Op, got *received) string {
 		}
 	}
 	if call.File != "" {
-		content := fileContent(call.FileLen)
-		if call.FileSkip > 0 && call.FileSkip <= len(content) {
-			content = content[call.FileSkip:]
+		// the declared parameter is ONE file: the handler holds a file of the list the caller supplied, whole, under its name
+		// (which one of several the statement does not say; that all of them travel is judged on the request body, see judge)
+		held := false
+		for _, want := range suppliedFiles(call) {
+			held = held || got.files[fileParamName(op)] == want
 		}
-		want := fmt.Sprintf("%s:%x", baseName(string(call.File)), mon.Hash64(string(content)))
-		if got.files[fileParamName(op)] != want {
+		if !held {
 			return "file"
 		}
 	} else if _, ok := got.files[fileParamName(op)]; ok {
@@ -1522,6 +1807,13 @@ func (c *Case) feature(call *Call) string {
 	}
 	if fn := fileParamName(op); fn != "upload" && call.File != "" {
 		fs = append(fs, "file-parameter-name-needs-quoting")
+	}
+	// round 11
+	if h := fileHistory(call); h != "" && call.File != "" {
+		fs = append(fs, h)
+	}
+	if call.FileSource != "" && call.File != "" {
+		fs = append(fs, "file-source-"+call.FileSource)
 	}
 	if formDeclared(op) && len(call.Form) == 0 && call.File == "" && call.File2 == "" {
 		fs = append(fs, "no-form-value")
@@ -2126,6 +2418,7 @@ func genCall(r *rand.Rand, d *gen.Desc, oi int) Call {
 				if c.FileLen > 1 && r.Intn(3) == 0 {
 					c.FileSkip = 1 + r.Intn(c.FileLen-1)
 				}
+				genFileHistory(r, &c)
 				continue
 			}
 			if r.Intn(5) == 0 {
@@ -2296,6 +2589,45 @@ func pinValue(r *rand.Rand, p *gen.Param) []mon.Q {
 	return []mon.Q{mon.Q(tail(r, hostile(r), "p"))}
 }
 
+// genFileHistory (round 11): in 1 upload in 3 the source is one whose Close means something (an *os.File, an in-memory source
+// that cannot be read once closed); in 1 upload in 3 the request writer sets the file field more than once, the way a writer
+// does that decorates another one: the same list again, the list found plus an attachment (behind or in front), other files
+// altogether, some kept and some dropped, three calls. What the caller supplies is the list of the last call.
+func genFileHistory(r *rand.Rand, c *Call) {
+	switch r.Intn(6) {
+	case 0, 1:
+		c.FileSource = "os"
+	case 2:
+		c.FileSource = "strict"
+	}
+	if r.Intn(3) != 0 {
+		return
+	}
+	more := func() int { // a further file; its index in the sets
+		c.FileMore = append(c.FileMore, MoreFile{Name: mon.Q(fileNames[r.Intn(len(fileNames))]), Len: []int{0, 1, 511, 513, 4096, 70000}[r.Intn(6)]})
+		return len(c.FileMore)
+	}
+	switch r.Intn(7) {
+	case 0: // the field is set to what it holds already (a wrapper and the writer it wraps both set the file)
+		c.FileSets = [][]int{{0}, {0}}
+	case 1: // an attachment is added behind what the field holds
+		c.FileSets = [][]int{{0}, {0, more()}}
+	case 2: // ... or in front of it
+		c.FileSets = [][]int{{0}, {more(), 0}}
+	case 3: // the file replaces another one
+		c.FileSets = [][]int{{more()}, {0}}
+	case 4: // one file is kept, one dropped
+		a, b := more(), more()
+		c.FileSets = [][]int{{a, 0}, {0, b}}
+	case 5: // two attachments, one after the other
+		a, b := more(), more()
+		c.FileSets = [][]int{{0}, {0, a}, {0, a, b}}
+	case 6: // the list shrinks to one of its files
+		a := more()
+		c.FileSets = [][]int{{0, a}, {[]int{0, a}[r.Intn(2)]}}
+	}
+}
+
 // genPreSend turns the call into one that supplies something which cannot be sent (when the operation has a place for it).
 func genPreSend(r *rand.Rand, op *gen.Op, c *Call) {
 	switch {
@@ -2307,6 +2639,7 @@ func genPreSend(r *rand.Rand, op *gen.Op, c *Call) {
 	case consumesIs(op, 0, "multipart/form-data"):
 		c.PreSend = "directory-file"
 		c.File, c.FileLen, c.FileSkip = "", 0, 0
+		c.FileSets, c.FileMore, c.FileSource = nil, nil, ""
 	}
 }
 
